@@ -8,6 +8,17 @@ schema and the sent document with graphql-core's own collect_fields / type utili
   null at a non-null unconditional position, a missing unconditional key, a value of another JSON kind
   outside the lax table, a __typename that is not a possible type  ==> must be rejected.
 Known finding C05-F1 = the lax-table cells (recorded per (scalar, replacement kind) cell).
+
+Input streams (every one goes through BOTH the class-IR correspondence and the corruption oracle):
+  * grown documents with the default feature set (rt_common.draw_cases);
+  * grown documents with `repeat_field` / `reuse_fragment` (gen/ops_gen.py): the same schema field selected twice under
+    different response keys in one selection set, and fragment definitions shared by several spreads / positions /
+    operations -- the only inputs on which state kept between two uses of one fragment, or a table keyed by the schema
+    field name instead of the response key, can show;
+  * hand-written SHAPES (below) of the same two families plus nested fragments, with many executor seeds per operation
+    and (nearly) exhaustive corruptions.
+Directed search: every case on which the class-IR correspondence broke in `run` is re-examined first by `search`
+with many executor seeds and the full corruption set, before the random search.
 """
 from __future__ import annotations
 
@@ -21,6 +32,69 @@ from . import common, e2e, engine, rt_common, wire
 from .common import Ctx, Failure, LeanStatus, Mismatch, Result
 
 PROP = "C05"
+SHARED_FEATURES: Dict[str, float] = {"repeat_field": 0.3, "reuse_fragment": 0.5}
+
+SHAPE_SDL = ("type Query { me: User node: Node reviewer: Actor author: Actor actors: [Actor!]! user(id: ID): User search: SearchResult }\n"
+             "interface Node { id: ID! }\ninterface Actor { id: ID! login: String! }\n"
+             "type User implements Node & Actor { id: ID! login: String! name: String! email: String age: Int tags: [String!]! "
+             "friends: [User!]! boss: Actor }\n"
+             "type Bot implements Node & Actor { id: ID! login: String! version: Int! owner: User! }\n"
+             "type Post implements Node { id: ID! title: String! author: Actor! reviewers: [Actor!]! }\n"
+             "union SearchResult = User | Bot | Post\n")
+_ACTOR_PARTS = "fragment ActorParts on Actor { id login ... on User { name } ... on Bot { version } }"
+SHAPES: Dict[str, str] = {
+    # one fragment (on an interface, with inline fragments on the implementations) spread at several interface positions
+    "shared-interface-fragment-two-fields": "query Q { reviewer { ...ActorParts } author { ...ActorParts } }\n" + _ACTOR_PARTS,
+    "shared-interface-fragment-two-operations": "query A { reviewer { ...ActorParts } }\nquery B { author { ...ActorParts } }\n" + _ACTOR_PARTS,
+    "shared-interface-fragment-list-and-nested": ("query Q { actors { ...ActorParts } me { boss { ...ActorParts } } "
+                                                  "node { id ... on Post { author { ...ActorParts } reviewers { ...ActorParts } } } }\n" + _ACTOR_PARTS),
+    # the same schema field under two response keys in one selection set
+    "same-field-two-keys-composite": ("query Q($a: ID, $b: ID) { first: user(id: $a) { id name tags } "
+                                      "second: user(id: $b) { id name tags email } }"),
+    "same-field-two-keys-leaf-and-inline": ("query Q { me { id ident: id name ... on User { nick: name } friends { login handle: login } "
+                                            "pals: friends { id } } }"),
+    "same-field-two-keys-in-fragments": ("query Q { me { ...U } node { ...N } }\n"
+                                         "fragment U on User { name fullName: name friends { id } pals: friends { login } }\n"
+                                         "fragment N on Node { id nodeId: id ... on Post { title heading: title } }"),
+    # a fragment spread below an inline fragment of an unpacked fragment
+    "mixin-below-unpacked-fragment": ("query Q { node { ...NodeParts } }\nfragment NodeParts on Node { id ... on User { ...UserFields } }\n"
+                                      "fragment UserFields on User { name email age }"),
+}
+
+
+def shape_cases(ctx: Ctx, calls: int = 6, limit: int = 90) -> List[Dict[str, Any]]:
+    import re
+
+    out: List[Dict[str, Any]] = []
+    digit = int(str(ctx.seed)[-1:]) if str(ctx.seed)[-1:].isdigit() else 0
+    for i, (name, q) in enumerate(sorted(SHAPES.items())):
+        ops = re.findall(r"\b(?:query|mutation)\s+(\w+)", q)
+        snake = (i + digit) % 2 == 0
+        out.append({"seed": f"{ctx.seed}:c05shape:{name}", "sdl": SHAPE_SDL, "queries": q + "\n", "config": {"convert_to_snake_case": snake},
+                    "calls": [{"op": o, "seed": f"{ctx.seed}:c05shape:{name}:{o}:{k}", "vars": {}} for o in ops for k in range(calls)],
+                    "snake": snake, "features": {}, "scalar_str": [], "scalars": [], "shape": name, "limit": limit, "null_p": 0.1})
+    return out
+
+
+# cases on which the class-IR correspondence broke in this run: the directed search starts from them
+_TIE_CASES: List[Dict[str, Any]] = []
+
+
+def note_tie(cases: List[Dict[str, Any]], res: Result, start: int) -> None:
+    by = {(c["sdl"], c["queries"]): c for c in cases}
+    for m in res.mismatches[start:]:
+        if m.observation == "resultTypes" and isinstance(m.input, dict):
+            c = by.get((m.input.get("sdl"), m.input.get("queries")))
+            if c is not None and not any(c is x for x in _TIE_CASES):
+                _TIE_CASES.append(c)
+
+
+def class_ir(ctx: Ctx, cases: List[Dict[str, Any]], res: Result, region: str) -> None:
+    start = len(res.mismatches)
+    rt_common.class_ir_correspondence(ctx, cases, res, region)
+    note_tie(cases, res, start)
+
+
 REPLACEMENTS: List[Any] = [True, 1, 7, 1.5, "5", "abc", "true", [], [1], {}, {"a": 1}]
 
 
@@ -329,7 +403,8 @@ def corruption_run(ctx: Ctx, cases: List[Dict[str, Any]], res: Result, driver_ok
     if not cases:
         return
     trig = rt_common.triggers_of(cases) if driver_ok else [[] for _ in cases]
-    runs = engine.pmap_forked(run_corruptions, [({**rt_common.strip_case(c), "seed": c["seed"], "limit": ctx.budget(24, 60)},) for c in cases], timeout=240)
+    runs = engine.pmap_forked(run_corruptions, [({**rt_common.strip_case(c), "seed": c["seed"], "limit": c.get("limit", ctx.budget(24, 60))},)
+                                                 for c in cases], timeout=240)
     strings = sorted({r for r in REPLACEMENTS if isinstance(r, str)})
     lax = lax_tables(strings)
     lines: List[Dict[str, Any]] = []
@@ -391,6 +466,23 @@ def corruption_run(ctx: Ctx, cases: List[Dict[str, Any]], res: Result, driver_ok
                             "accepted_by_real_model": pt["accepted"], "pydantic_error": pt["error"]})
     if lines:
         outs = common.run_driver(rt_common.DRIVER, lines)
+        # the acceptance predicate of the plain-tier strictness theorem (plain_accepted_imp_conformant) next to the REAL class:
+        # inside the theorem's region PlainOK, real acceptance must coincide with `laxResp` on every payload
+        lax_outs = common.run_driver(PROP, [{**l, "op": "laxResp"} for l in lines])
+        for (ci, ki), lo in zip(index, lax_outs):
+            call = runs[ci][1]["calls"][ki]
+            if lo is None:
+                res.count("laxResp:operation-outside-PlainOK")
+                continue
+            res.count("laxResp:operation-inside-PlainOK")
+            for pt, pred in zip(call["points"], lo):
+                res.count("laxResp:payloads")
+                res.count("laxResp:" + ("accepted" if pt["accepted"] else "rejected"))
+                if bool(pred) != bool(pt["accepted"]):
+                    res.mismatches.append(Mismatch("laxResp", {"sdl": cases[ci]["sdl"], "queries": cases[ci]["queries"], "op": call["op"],
+                                                               "payload": pt["payload"],
+                                                               "corruption": {k: pt[k] for k in ("path", "action", "value") if k in pt}},
+                                                   {"accepted": pt["accepted"], "error": pt["error"]}, {"laxResp": pred}))
         for (ci, ki), out in zip(index, outs):
             call = runs[ci][1]["calls"][ki]
             if not isinstance(out, list):
@@ -447,26 +539,59 @@ def replay_corpus(ctx: Ctx, res: Result) -> None:
 
 def run(ctx: Ctx, st: Optional[LeanStatus]) -> Result:
     res = Result()
-    res.rule = ("for seeded valid (schema, operations) cases: one real call per operation, then single-point corruptions of the executor's response "
-                "(null / delete key / replace by every other JSON kind / foreign __typename), sampled per response, validated by the REAL generated "
-                "model class; expectation from graphql-core's collect_fields/type utilities. Distinct non-trivial = distinct (document, path, corruption).")
+    res.rule = ("for seeded valid (schema, operations) cases - grown with the default features, grown with repeated schema fields (two response keys) and "
+                "shared fragment definitions, and hand-written shapes of both families: class-IR correspondence of every definition; then one real call "
+                "per operation (shapes: several executor seeds) and single-point corruptions of the executor's response (null / delete key / replace by "
+                "every other JSON kind / foreign __typename), sampled per response, validated by the REAL generated model class; expectation from "
+                "graphql-core's collect_fields/type utilities; Spec/Pyd and (inside PlainOK) the theorem's predicate laxResp compared with the real "
+                "verdict on every payload. Distinct non-trivial = distinct (document, path, corruption).")
     res.extra["fingerprints"] = common.fingerprints(ctx, fingerprint_items())
     driver_ok = st is not None and st.driver_ok
     replay_corpus(ctx, res)
+    del _TIE_CASES[:]
+    shapes = shape_cases(ctx)
     if driver_ok:
-        rt_common.class_ir_correspondence(ctx, rt_common.draw_cases(ctx, "ir-default", ctx.budget(200, 1500)), res, "default")
+        class_ir(ctx, rt_common.draw_cases(ctx, "ir-default", ctx.budget(200, 1500)), res, "default")
+        class_ir(ctx, rt_common.draw_cases(ctx, "ir-shared", ctx.budget(80, 600), SHARED_FEATURES), res, "shared")
+        class_ir(ctx, shapes, res, "shapes")
     else:
         res.mismatches.append(Mismatch("resultTypes", {}, "driver not built", None))
-    cases = rt_common.draw_cases(ctx, "corrupt", ctx.budget(48, 480), calls_per_op=1)
-    corruption_run(ctx, cases, res, driver_ok)
-    res.oracle_only += ["expectations come from graphql-core's collect_fields / type system applied to the sent document"]
+    cases = rt_common.draw_cases(ctx, "corrupt", ctx.budget(36, 360), calls_per_op=1)
+    cases += rt_common.draw_cases(ctx, "corrupt-shared", ctx.budget(14, 160), SHARED_FEATURES, calls_per_op=1)
+    for c in cases + shapes:
+        feats = c.get("features") or {}
+        res.count("stream:" + ("shape" if c.get("shape") else "shared" if feats.get("reuse_fragment") else "default"))
+    corruption_run(ctx, cases + shapes, res, driver_ok)
+    res.oracle_only += ["expectations come from graphql-core's collect_fields / type system applied to the sent document",
+                        "unproved region (correspondence and oracle only): rejection of a corruption below a composite-typed field outside the plain tier "
+                        "(chaining of the per-class theorems through class / Union references with fragments or abstract types); configured custom scalars"]
     res.assumptions += ["pydantic-core's lax str->int/float/bool parsers are external: passed to the model as tables computed with the real library"]
     return res
 
 
+def directed_cases(ctx: Ctx, cases: List[Dict[str, Any]], n_seeds: int = 6) -> List[Dict[str, Any]]:
+    """the same (schema, document, configuration), every operation executed with `n_seeds` executor seeds (runtime types,
+    nulls, list lengths) and (nearly) all single-point corruptions of every response"""
+    out = []
+    for c in cases:
+        first: Dict[str, Dict[str, Any]] = {}
+        for call in c["calls"]:
+            first.setdefault(call["op"], call)
+        calls = [{"op": o, "seed": f"{ctx.seed}:directed:{o}:{k}", "vars": call.get("vars") or {}} for o, call in first.items() for k in range(n_seeds)]
+        out.append({**c, "calls": calls, "limit": 150, "null_p": 0.08})
+    return out
+
+
 def search(ctx: Ctx) -> Result:
     res = Result()
-    corruption_run(ctx, rt_common.draw_cases(ctx, "search", 300, calls_per_op=1), res, False)
+    # 1. directed: the inputs on which the tie broke, and the shapes
+    directed = directed_cases(ctx, _TIE_CASES[:10]) + shape_cases(ctx, calls=10, limit=150)
+    corruption_run(ctx, directed, res, False)
+    if any(f.trigger is None for f in res.failures):
+        return res
+    # 2. random, both feature sets
+    cases = rt_common.draw_cases(ctx, "search", 200, calls_per_op=1) + rt_common.draw_cases(ctx, "search-shared", 140, SHARED_FEATURES, calls_per_op=1)
+    corruption_run(ctx, cases, res, False)
     return res
 
 
